@@ -247,6 +247,7 @@ type winSite struct {
 	ind     *Induction
 	header  *ssa.BasicBlock
 	cond    *ssa.BinOp
+	rotated bool        // range-lowered loop: tested at the bottom on I+step, entered under the same test on the initial value
 	condOp  token.Token // continue while I <condOp> bound
 	initL   linForm
 	boundL  linForm
@@ -407,38 +408,98 @@ func analyseWindow(c *Check, w *World, tb *TB, iv *IV, pfx string, entry *ssa.Fu
 		s.I = cands[0]
 		s.ind = InductionOf(s.I)
 		s.header = s.I.Block()
-		iff, ok := s.header.Instrs[len(s.header.Instrs)-1].(*ssa.If)
-		if !ok {
-			c.Unk(pfx+".2", fn, "window-loop", "the loop head does not test the loop counter", w.InstrPos(lv.inst))
-			return nil
+		body := naturalLoop(s.header)
+		var iff *ssa.If
+		var bo *ssa.BinOp
+		var boundV ssa.Value
+		var op token.Token
+		condBlock := s.header
+		// the usual form: the loop head compares the counter with its bound
+		if hi, ok := s.header.Instrs[len(s.header.Instrs)-1].(*ssa.If); ok {
+			if hb, ok := hi.Cond.(*ssa.BinOp); ok {
+				switch {
+				case stripConv(hb.X) == ssa.Value(s.I):
+					iff, bo, boundV, op = hi, hb, hb.Y, hb.Op
+				case stripConv(hb.Y) == ssa.Value(s.I):
+					iff, bo, boundV, op = hi, hb, hb.X, flipOp(hb.Op)
+				}
+			}
 		}
-		bo, ok := iff.Cond.(*ssa.BinOp)
-		if !ok {
-			c.Unk(pfx+".2", fn, "window-loop", "the loop condition is not a comparison", w.InstrPos(iff))
+		if iff == nil {
+			// the range-lowered form (for i := range n): the block that jumps back to the head tests the advanced
+			// counter I+step against the bound, and the loop is entered under the same test on the initial value
+			isNextI := func(v ssa.Value) bool {
+				nb, ok := stripConv(v).(*ssa.BinOp)
+				if !ok || nb.Op != token.ADD {
+					return false
+				}
+				k, isK := constInt(nb.Y)
+				return isK && nb.X == ssa.Value(s.I) && k.IsInt64() && k.Int64() == int64(s.ind.Step)
+			}
+			for _, p := range s.header.Preds {
+				if !body[p] {
+					continue
+				}
+				pi, ok := p.Instrs[len(p.Instrs)-1].(*ssa.If)
+				if !ok {
+					continue
+				}
+				pb, ok := pi.Cond.(*ssa.BinOp)
+				if !ok {
+					continue
+				}
+				switch {
+				case isNextI(pb.X):
+					iff, bo, boundV, op, condBlock = pi, pb, pb.Y, pb.Op, p
+				case isNextI(pb.Y):
+					iff, bo, boundV, op, condBlock = pi, pb, pb.X, flipOp(pb.Op), p
+				}
+			}
+			if iff != nil {
+				s.rotated = true
+			}
+		}
+		if iff == nil {
+			c.Unk(pfx+".2", fn, "window-loop", "the loop condition does not compare the loop counter with a bound", w.InstrPos(lv.inst))
 			return nil
 		}
 		s.cond = bo
-		var boundV ssa.Value
-		op := bo.Op
+		// the true edge must be the one that continues the loop
 		switch {
-		case stripConv(bo.X) == ssa.Value(s.I):
-			boundV = bo.Y
-		case stripConv(bo.Y) == ssa.Value(s.I):
-			boundV = bo.X
-			op = flipOp(op)
-		default:
-			c.Unk(pfx+".2", fn, "window-loop", "the loop condition does not compare the loop counter with a bound", w.InstrPos(iff))
-			return nil
-		}
-		// the true edge must be the one that continues into the body
-		body := naturalLoop(s.header)
-		switch {
-		case body[s.header.Succs[0]] && !body[s.header.Succs[1]]:
-		case body[s.header.Succs[1]] && !body[s.header.Succs[0]]:
+		case body[condBlock.Succs[0]] && !body[condBlock.Succs[1]]:
+		case body[condBlock.Succs[1]] && !body[condBlock.Succs[0]]:
 			op = negOp(op)
 		default:
 			c.Unk(pfx+".2", fn, "window-loop", "the loop test is not the loop's exit test", w.InstrPos(iff))
 			return nil
+		}
+		if s.rotated {
+			// entered only under  init <op> bound : some condition on the way into the head says exactly that
+			okPre := len(s.ind.Inits) == 1
+			exq := &linMaker{w: w}
+			for _, p := range s.header.Preds {
+				if body[p] || !okPre {
+					continue
+				}
+				found := false
+				iL, bL := exq.of(tb.Val(s.ind.Inits[0], lv.env)), exq.of(tb.Val(boundV, lv.env))
+				for _, at := range atomsOf(append(append([]Cond(nil), CondsAt(p)...), EdgeConds(p, s.header)...)) {
+					xl, yl := exq.of(tb.Val(at.X, lv.env)), exq.of(tb.Val(at.Y, lv.env))
+					if xl.eq(iL) && yl.eq(bL) && at.Op == op {
+						found = true
+					}
+					if xl.eq(bL) && yl.eq(iL) && flipOp(at.Op) == op {
+						found = true
+					}
+				}
+				if !found {
+					okPre = false
+				}
+			}
+			if !okPre {
+				c.Unk(pfx+".2", fn, "window-loop", "the loop is tested at its bottom but not entered under the same test on the initial counter", w.InstrPos(iff))
+				return nil
+			}
 		}
 		s.condOp = op
 		if s.ind.Step != 1 && s.ind.Step != -1 {
@@ -599,10 +660,13 @@ func analyseWindow(c *Check, w *World, tb *TB, iv *IV, pfx string, entry *ssa.Fu
 				start = sc
 			}
 		}
+		if s.rotated {
+			start = s.header // the head is the first block of the body
+		}
 		tooMany := false
 		var dfs func(b *ssa.BasicBlock, trace []*ssa.BasicBlock, conds []condSrc)
 		dfs = func(b *ssa.BasicBlock, trace []*ssa.BasicBlock, conds []condSrc) {
-			if tooMany || !body[b] || b == s.header {
+			if tooMany || !body[b] || (b == s.header && !(s.rotated && len(trace) == 0)) {
 				return
 			}
 			for _, t := range trace {
@@ -641,7 +705,9 @@ func analyseWindow(c *Check, w *World, tb *TB, iv *IV, pfx string, entry *ssa.Fu
 				dfs(sc, trace, conds)
 			}
 		}
-		if start != nil {
+		if start != nil && s.rotated {
+			dfs(start, nil, nil)
+		} else if start != nil {
 			dfs(start, []*ssa.BasicBlock{s.header}, nil)
 		}
 		if tooMany || len(ways) == 0 {
@@ -1071,6 +1137,44 @@ func checkAcceptGuardG(c *Check, w *World, tb *TB, pfx string, entry *ssa.Functi
 			} else {
 				okAll = false
 				c.Bad(pfx+".5", fn, "accept-guard@"+FuncName(callee), "the helper "+FuncName(callee)+" can report a match without the per-step validation having returned true", w.Pos(callee.Pos()))
+			}
+		}
+	}
+	// the walk ends early only on acceptance: any other way out of the window loop (a break or return on some
+	// error class, say) leaves steps of the window unvalidated
+	seenExit := map[*ssa.BasicBlock]bool{}
+	for _, s := range sites {
+		if s.header == nil || s.loopLvl >= len(s.levels) {
+			continue
+		}
+		lv := s.levels[s.loopLvl]
+		body := naturalLoop(s.header)
+		var blocks []*ssa.BasicBlock
+		for b := range body {
+			blocks = append(blocks, b)
+		}
+		sort.Slice(blocks, func(i, j int) bool { return blocks[i].Index < blocks[j].Index })
+		for _, b := range blocks {
+			if seenExit[b] {
+				continue
+			}
+			seenExit[b] = true
+			iff, isIf := b.Instrs[len(b.Instrs)-1].(*ssa.If)
+			for _, sc := range b.Succs {
+				if body[sc] {
+					continue
+				}
+				if isIf && s.cond != nil && iff.Cond == ssa.Value(s.cond) {
+					continue // the loop's own bound
+				}
+				if b == s.header && !isIf {
+					continue
+				}
+				conds := append(append([]Cond(nil), CondsAt(b)...), EdgeConds(b, sc)...)
+				if !underCarrier(lv.fn, conds) {
+					okAll = false
+					c.Bad(pfx+".2", fn, "window-loop:early-exit", "the window walk can stop before all steps are validated on a condition other than a step's acceptance: the remaining steps of the window are never tried", w.InstrPos(b.Instrs[len(b.Instrs)-1]))
+				}
 			}
 		}
 	}
